@@ -788,6 +788,9 @@ void QXmppOutgoingClient::handleStreamFeatures(const QXmppStreamFeatures &featur
     }
     // Non-SASL
     if (nonSaslAvailable && configuration().useNonSASLAuthentication()) {
+        // a legacy login is not followed by another features element: what is advertised here is
+        // all there is (otherwise the CSI availability of an earlier connection would be used)
+        d->csiManager.onStreamFeatures(features);
         startNonSaslAuth();
         return;
     }
